@@ -610,13 +610,13 @@ def c06(ctx):
     return grammar_check(ctx, {"value", "ok_on_semantic_err", "err_on_defined", "profile_diff", "panic", "abort"}, {"*": 5}, {"*": 6},
                          {"assignments": 1, "boundary_pool": True, "full_placeholders": True, "max_assign": 700 if ctx.quick() else 6000,
                           "event_every": 500, "event_cap": 2000, "nontrivial_min_ops": 1, "scope": SCOPE_C06}, evals=["i64"], invs=[],
-                         sem={"w_quick": 6, "w_thorough": 8, "invs": ("C06Exact",)}, compose={"quick": (4, 3), "thorough": (4, 4), "chains": {"quick": (6, 8, 40), "thorough": (200, 10, 60)}})
+                         sem={"w_quick": 6, "w_thorough": 8, "invs": ("C06Exact",)}, compose={"quick": (4, 3), "thorough": (4, 4), "chains": {"quick": (6, 8, 40), "thorough": (200, 10, 60)}, "join": {"quick": (3, 3), "thorough": (3, 4)}})
 
 def c09(ctx):
     return grammar_check(ctx, {"value", "ok_on_semantic_err", "err_on_defined", "profile_diff", "panic", "abort"}, {"*": 5}, {"*": 6},
                          {"assignments": 1, "boundary_pool": True, "full_placeholders": True, "max_assign": 700 if ctx.quick() else 6000,
                           "event_every": 500, "event_cap": 2000, "nontrivial_min_ops": 1, "scope": SCOPE_C09}, evals=["num"], invs=[],
-                         sem={"w_quick": 6, "w_thorough": 8, "invs": ("C09IntegerWhenFits", "C09Rounding")}, compose={"quick": (3, 3), "thorough": (4, 4), "chains": {"quick": (6, 8, 40), "thorough": (200, 10, 60)}})
+                         sem={"w_quick": 6, "w_thorough": 8, "invs": ("C09IntegerWhenFits", "C09Rounding")}, compose={"quick": (3, 3), "thorough": (4, 4), "chains": {"quick": (6, 8, 40), "thorough": (200, 10, 60)}, "join": {"quick": (3, 3), "thorough": (3, 4)}})
 
 def base_job(ctx, mode, tag, profile, **kw):
     j = {"mode": mode, "vocab": os.path.join(WORK, "vocab.json"), "shard": 0, "nshards": 1, "start": 0,
@@ -884,6 +884,9 @@ def c05(ctx):
     vlib.vocab_json()
     fr = simple_model(ctx, "MCFloat", "INIT Init\nNEXT Next\nCHECK_DEADLOCK FALSE\nINVARIANT Total Emit\n", "fclass")
     models = run_grammar_models(ctx, ["f64"], (lambda e: 5 if q else 6), [])
+    # beyond the bound: every context x bracketed piece, and every two pieces joined by a binary operator (a*b - c*d, ...)
+    models.update(run_compose_models(ctx, ["f64"], 3 if q else 4, 3 if q else 4))
+    models.update(run_compose_models(ctx, ["f64"], 3, 3 if q else 4, tag="join", mode="join"))
     def jobs(profile):
         js = replay_jobs(ctx, None, profile, models, {"assignments": 1, "boundary_pool": True, "full_placeholders": True, "max_assign": 600 if q else 8000,
                                                         "event_every": 500, "event_cap": 2000, "nontrivial_min_ops": 1, "profile": profile, "scope": SCOPE_C05})
@@ -901,7 +904,7 @@ def c07(ctx):
     q = ctx.quick()
     return grammar_check(ctx, {"value", "ok_on_semantic_err", "err_on_defined", "profile_diff", "panic", "abort"}, {"*": 5}, {"*": 6},
                          {"assignments": 1, "boundary_pool": True, "full_placeholders": True, "max_assign": 700 if q else 8000,
-                          "event_every": 500, "event_cap": 2000, "nontrivial_min_ops": 1, "scope": SCOPE_C07}, evals=["dec"], invs=[], compose={"quick": (4, 3), "thorough": (4, 4), "chains": {"quick": (6, 8, 40), "thorough": (200, 10, 60)}},
+                          "event_every": 500, "event_cap": 2000, "nontrivial_min_ops": 1, "scope": SCOPE_C07}, evals=["dec"], invs=[], compose={"quick": (4, 3), "thorough": (4, 4), "chains": {"quick": (6, 8, 40), "thorough": (200, 10, 60)}, "join": {"quick": (3, 3), "thorough": (3, 4)}},
                          sem={"dec": {"quick": (2, 1, 3, 3), "thorough": (2, 2, 4, 1)}, "invs": ("C07Exact",)})
 
 def c08(ctx):
